@@ -11,9 +11,11 @@ GUARD = 'KOPF_VERIF_TRACE'
 # property id -> (technique, level text, level note, design ref)
 CHECKS: dict[str, dict[str, str]] = {
     'C12': dict(
-        technique='TLA+ reference of the API retry loop, throttling and re-authentication (Infra.tla); the laws checked by TLC over all fault '
-                  'words; the real api.request / throttled processing / Vault run in virtual time, records judged by TLC',
-        text='[+ a session whose close() takes time while another request retries from its backoff; reuse of invalidated credentials judged at the instant a request leaves the client] [+ timers whose own PATCH exhausts the retries: known finding F17] RetryPlan gives the exact instants of all attempts for a fault word (connection errors, timeouts, 5xx, 403, 429 with Retry-After, '
+        technique='implementation-shaped TLA+ model of re-authentication (Vault.tla: credentials.Vault, @authenticated, the retry on the same context, '
+                  'the authenticator, asyncio Lock / Condition as they behave) model-checked with TLC over all interleavings incl. termination under fairness, and '
+                  'bound to the code by trace validation of the real machinery observed from outside (Trace_Vault); TLA+ reference of the API retry loop and of '
+                  'throttling (Infra.tla) with laws checked by TLC over all fault words; the real api.request / throttled processing run in virtual time, records judged by TLC',
+        text='[+ Vault.tla / MC_Vault: NoReuse, SingleReauth, ReauthOnlyOnRevocation, NoCrash, NoLeak, LockDiscipline for 2-3 requesters x 1-2 keys x revocations x faults x login outcomes (fresh / same / none) x both kinds of credentials, negative variant `bykey`; Trace_Vault: 400 (quick) / 6000 (thorough) seeded schedules of the real Vault / authenticated / api.request / authenticator, every lock acquisition, wait, notification, selection, flush, request and answer mapped to one action of the model, the vault compared after every event] [+ a session whose close() takes time while another request retries from its backoff; reuse of invalidated credentials judged at the instant a request leaves the client] [+ timers whose own PATCH exhausts the retries: known finding F17] RetryPlan gives the exact instants of all attempts for a fault word (connection errors, timeouts, 5xx, 403, 429 with Retry-After, '
              'other 4xx) under a backoff list and enforce_retry_after; TLC checks its laws for 37 448 cases and then judges the real '
              'api.request on ~900 (quick) / all (thorough) words: attempt instants must be equal. Throttling: per-object delays grow per '
              'consecutive error, reset by success, other objects are processed at their arrival instants, the operator stays alive and '
@@ -23,8 +25,8 @@ CHECKS: dict[str, dict[str, str]] = {
         ref='DESIGN.md 4/C12'),
     'C19': dict(
         technique='implementation-shaped TLA+ model of one watcher task (Streaming.tla) model-checked with a server (MC_Streaming) and bound to the code by trace validation of every watcher task (Trace_Streaming); TLA+ model of the list-then-watch continuity logic (Watching.tla) checked exhaustively with TLC; recorded executions of '
-                  'the real operator against the stateful fake API checked by TLC against a TLA+ property automaton (WatchMonitor.tla)',
-        text='[+ Trace_Orchestration: every adjustment of the real orchestrator (entry and return of adjust_tasks with the insights it reads) and every start / end of a watcher task against Orchestration.tla (rewritten over resources x namespaces: Spawnable / Kept); behaviours of the watcher model drawn by TLC (Sim_Streaming) replayed into the real operator] [+ Streaming.tla: the implementation-shaped, timed model of one watcher task (list/watch calls with api.request retries, Retry-After, reconnect_backoff, 410, client and inactivity timeouts, pause notice, cancellation), closed with a server in MC_Streaming (continuity laws, 2.2M states quick / 62M thorough, negative `jump` configuration); Trace_Streaming validates EVERY watcher task of every run second by second (version resumed from, instant of every request, hand-over of every event, closing on pause); a cluster-scoped kind under a namespace-restricted operator (known family F34)] [+ Orchestration.tla: observers vs orchestrator under the `revised` condition, Coverage for any number of revisions over 4 pairs, negative model loses a wake-up; CRDs modified at run time] Watching.tla: a server change log, a client that lists, watches from a remembered version and survives EOF, connection errors, '
+                  'the real operator against the stateful fake API checked by TLC against a TLA+ property automaton (WatchMonitor.tla); TLA+ reference of the observers (Observation.tla) judging every call of revise_resources / revise_namespaces',
+        text='[+ Observation.tla: what the resource and namespace observers make of the cluster (update per re-scanned group, ambiguity, suitability, really-gone namespaces, the documented glob semantics) as reference functions; every call inside the operators of the runs and on generated clusters x selectors x re-scans judged by TLC] [+ Trace_Orchestration: every adjustment of the real orchestrator (entry and return of adjust_tasks with the insights it reads) and every start / end of a watcher task against Orchestration.tla (rewritten over resources x namespaces: Spawnable / Kept); behaviours of the watcher model drawn by TLC (Sim_Streaming) replayed into the real operator] [+ Streaming.tla: the implementation-shaped, timed model of one watcher task (list/watch calls with api.request retries, Retry-After, reconnect_backoff, 410, client and inactivity timeouts, pause notice, cancellation), closed with a server in MC_Streaming (continuity laws, 2.2M states quick / 62M thorough, negative `jump` configuration); Trace_Streaming validates EVERY watcher task of every run second by second (version resumed from, instant of every request, hand-over of every event, closing on pause); a cluster-scoped kind under a namespace-restricted operator (known family F34)] [+ Orchestration.tla: observers vs orchestrator under the `revised` condition, Coverage for any number of revisions over 4 pairs, negative model loses a wake-up; CRDs modified at run time] Watching.tla: a server change log, a client that lists, watches from a remembered version and survives EOF, connection errors, '
              'timeouts, 410 after compaction, bookmarks and an unknown ERROR; NoSkip / SinceNeverAhead / AllReach hold in every reachable '
              'state for 4 changes x 3 faults (two configurations), and a negative configuration (resume version ahead of the stream) must '
              'fail. The real operator then runs random object histories with stream faults at random positions, and namespace/CRD churn under '
@@ -54,7 +56,7 @@ CHECKS: dict[str, dict[str, str]] = {
         technique='explicit TLA+ model of the operator\'s task orchestration (Lifecycle.tla: startup/cleanup task, gated root tasks, their '
                   'children, run_tasks) checked exhaustively with TLC incl. a leads-to; runs of the real kopf.operator() in virtual time '
                   'validated by TLC against the specification (Trace_Lifecycle.tla, silent steps for the mechanism)',
-        text='TLC: no API request before the startup handlers succeeded, ready only after startup, a failed startup makes no request and runs '
+        text='[+ an object marked for deletion shortly before the stop: its daemon is in the graceful stage of its termination when the operator is stopped] TLC: no API request before the startup handlers succeeded, ready only after startup, a failed startup makes no request and runs '
              'no cleanup, cleanup only after daemons, streams, the peering record and every root task are gone, nothing lingers at return, '
              'failures are re-raised, and every stop / failure leads to the return - for all startup/cleanup scripts and every position of '
              'a stop flag, a cancellation and an essential-task failure. Real runs (scripted handlers with durations, daemons, peering, '
@@ -147,7 +149,7 @@ CHECKS: dict[str, dict[str, str]] = {
     'C04': dict(
         technique='TLA+ reference semantics of essence and diff (Essence.tla over JV.tla); TLC checks the diff laws on the reference for all '
                   'pairs of small bodies; records of the real essence/diff functions are judged by TLC (ClassifyC04)',
-        text='[+ ordinary annotations of look-alike domains (keys that merely begin with a managed prefix)] DiffSound / DiffComplete / ReduceExact hold on the reference for 810 900 (quick) or 9.8 million (thorough) pairs of bodies. '
+        text='[+ echo records: the last-handled state fetched back after the framework\'s own write equals the essence of the object, empty essences included] [+ ordinary annotations of look-alike domains (keys that merely begin with a managed prefix)] DiffSound / DiffComplete / ReduceExact hold on the reference for 810 900 (quick) or 9.8 million (thorough) pairs of bodies. '
              'The real diffbase.build + progress.clear, storages\' store/purge/touch, finalizer edits, diffs.diff and diffs.reduce are run on '
              'bounded-exhaustive bodies x 4 storage configurations (x extra fields) and on hypothesis-generated documents; TLC decides for '
              'every record: own / foreign-Kopf writes invisible, other edits visible, essence equal to the reference Essence, diffs equal to '
@@ -170,7 +172,7 @@ CHECKS: dict[str, dict[str, str]] = {
     'C03': dict(
         technique='explicit TLA+ model of the closed loop of one object (Handling.tla) checked exhaustively with TLC; traces of the real '
                   'kopf.operator() in the world simulator validated by TLC against the specification (Trace_Handling.tla)',
-        text='[+ multi-step deletions and retries at once in the histories] [+ TLC-drawn histories (Sim_Handling); histories of the consistency and finalizer profiles; user transformations carried forward] TerminalConverged on configurations without doors / with kills, stops, restarts, re-listings; Termination under weak fairness; witness configurations for the known families F8, F20, F21, F22; histories run to quiescence: final state Converged (or excused by a known family) and no PATCH in the tail window' ' -- checked by TLC on Handling.tla for every interleaving of the bounded configurations, and on every state of '
+        text='[+ histories with sub-handlers run to quiescence] [+ multi-step deletions and retries at once in the histories] [+ TLC-drawn histories (Sim_Handling); histories of the consistency and finalizer profiles; user transformations carried forward] TerminalConverged on configurations without doors / with kills, stops, restarts, re-listings; Termination under weak fairness; witness configurations for the known families F8, F20, F21, F22; histories run to quiescence: final state Converged (or excused by a known family) and no PATCH in the tail window' ' -- checked by TLC on Handling.tla for every interleaving of the bounded configurations, and on every state of '
              'the behaviour that explains each recorded trace of the real operator (seeded random scenarios of profile converge; every '
              'PATCH is compared with the specification\'s server object field by field, virtual time is bound by urgency). Daemons and timers '
              'hold the finalizer too: the daemon executions of C09 are validated against Spawning.tla (Trace_Spawning: every finalizer write must '
